@@ -225,3 +225,25 @@ example : ((({} : Parser).parseLines (some "N3 G1 X1*7 ; c\r\n  hello\nM117 x".t
     some ["N3 G1 X1*7 ; c\r\n".toList, "  hello\n".toList, "M117 x".toList] := by decide +kernel
 
 end ERP.C18
+
+namespace ERP.C18
+open ERP
+
+/-- **The enter/exit scripts the filter emits never contain an empty line**, and splitting a
+configured script never fails (`ExcludeRegionPlugin._splitGcodeScript`). -/
+theorem splitGcodeScript_spec (t : Option Text) :
+    ∃ r, splitGcodeScript t = .ok r ∧ ∀ ls, r = some ls → ∀ l ∈ ls, l ≠ [] := by
+  cases t with
+  | none => exact ⟨none, rfl, fun ls h => by cases h⟩
+  | some s =>
+    obtain ⟨qs, fin, h, _⟩ := parseLines_lossless ({} : Parser) s 0 (Nat.zero_le _)
+    have h' : ({} : Parser).parseLines (some s) = .ok (qs, fin) := h
+    refine ⟨_, by simp only [splitGcodeScript, h', bind, Except.bind]; rfl, ?_⟩
+    intro ls hls l hl
+    cases hls
+    have := (List.mem_filter.mp hl).2
+    intro he
+    rw [he] at this
+    simp at this
+
+end ERP.C18
